@@ -636,6 +636,84 @@ def finer_grid_nondyadic(res, rng, tier):
                 report(res, "build_finer_grid (non-dyadic): an original value is missing from the result", ctx)
 
 
+def precomputation_sequence_oracle(res, rng, tier):
+    """ONE max-step simulator object, initialised once, then pre_computation + simulate for products of DIFFERENT maturities in a row
+    (short then long, long then short; the engines call pre_computation for every pass): every returned path must end at the maturity
+    of the product it was pre-computed for and obey the cap for that maturity (the refinement closure depends on the maturity).
+    Direct, Markov-chain, coupled, copula and coupled-copula max-step simulators; implementation-only oracle."""
+    import numpy as np
+    from stepmeasure import StepModel, make_grid, step_spec, build_copula_model
+    from rpylib.process.coupling.couplingmarkovchain import CouplingMarkovChain
+    from rpylib.process.coupling.couplinglevycopula import CouplingProcessLevyCopula
+    from rpylib.process.markovchain.markovchainlevycopula import MarkovChainLevyCopula
+    from rpylib.distribution.sampling import SamplingMethod
+    kinds = ["levy", "chain", "coupled", "copula", "coupled-copula"]
+    for it in range(20 if tier == "quick" else 150):
+        kind = kinds[it % len(kinds)]
+        eps = rng.choice([0.5, 0.25, 1.0])
+        short, long_ = eps * rng.choice([0.5, 1.0]), eps * rng.choice([2.0, 4.0, 3.0])
+        maturities = [short, long_, short] if (it // len(kinds)) % 2 == 0 else [long_, short, long_]
+        ctx = {"kind": "precomputation-sequence", "simulator": kind, "eps": eps, "maturities": maturities}
+        try:
+            first = make_product(2, maturities[0], stochastic=True)
+            coupled = kind.startswith("coupled")
+            if kind == "levy" or kind == "chain":
+                proc, model = build_process(kind, rng)
+                proc.initialisation(first, max_step_epsilon=eps)
+                fine = proc
+            elif kind == "coupled":
+                proc = CouplingMarkovChain(StepModel(the_measure(), a=0.25, sigma=0.5), SamplingMethod.BINARYSEARCHTREEADAPTED1D, make_grid(AXIS, 6, Fraction(1, 4)))
+            else:
+                spec = step_spec(the_measure(), a=0.25, sigma=0.5)
+                cop = build_copula_model([spec, spec], "independent")
+                grid = make_grid(AXIS, 6, Fraction(1, 4), dimension=2)
+                proc = (MarkovChainLevyCopula(cop, grid, SamplingMethod.BINARYSEARCHTREEADAPTED) if kind == "copula"
+                        else CouplingProcessLevyCopula(cop, grid, SamplingMethod.BINARYSEARCHTREEADAPTED))
+                if kind == "copula":
+                    proc.initialisation(first, max_step_epsilon=eps)
+                    fine = proc
+            if coupled:
+                with Patch(tags(rng, 400)):
+                    np.random.seed(rng.randrange(2 ** 31))
+                    proc.initialisation(first, max_step_epsilon=eps)
+                    proc.next_level(mc_paths=1, path_managers=None, product=first, max_step_epsilon=eps)
+                fine = proc.fine_process
+            outcomes = []
+            for T in maturities:
+                prod = make_product(2, T, stochastic=True)
+                with_jump = rng.random() < 0.4
+                counts, offsets = ([1], [[T / 4]]) if with_jump else ([0], [[]])
+                script_process(fine, counts, offsets)
+                if kind == "levy":
+                    model.script = deque([0.25] * counts[0])
+                elif kind == "chain":
+                    fine._path_simulation._sampling = lambda size, c=counts[0]: [1] * c
+                elif kind == "coupled":
+                    fine._path_simulation._sampling = lambda size, c=counts[0]: [1] * c
+                    proc._path_coupling_simulation.coupling_state = lambda inc: 0.25
+                else:
+                    fine.sampling.sample = lambda size, c=counts[0]: [np.array((1, 1))] * c
+                    if kind == "coupled-copula":
+                        setattr(proc._path_coupling_simulation, "_CouplingLevyCopulaSimulation__coupling_state",
+                                lambda inc, axis_coordinates=None: np.array([0.25, 0.25]))
+                with Patch(tags(rng, 400)):
+                    proc.pre_computation(1, prod)
+                    sp = proc.simulate_one_path_with_coupling() if coupled else proc.simulate_one_path()
+                times = [float(t) for t in sp.jump_times[:]]
+                steps = [b - a for a, b in zip(times, times[1:])]
+                outcomes.append({"maturity": T, "jumps": counts[0], "times": times})
+                res.count(("precomp-seq", kind, eps, tuple(maturities), len(outcomes), with_jump), nontrivial=len(outcomes) > 1, kind=f"pre_computation sequence ({kind})")
+                if times[0] != 0.0 or times[-1] != T:
+                    report(res, "after a new pre_computation the path does not run from 0 to the maturity of that product", dict(ctx, runs=outcomes))
+                    break
+                if eps < T and max(steps) > eps:
+                    report(res, "after pre_computation with a longer product (same simulator object, no new initialisation) the path is not refined: "
+                                "a step exceeds max_step_epsilon", dict(ctx, runs=outcomes, step=max(steps)))
+                    break
+        except Exception as e:  # noqa
+            report(res, f"pre_computation / simulate sequence raises {type(e).__name__} ({kind})", dict(ctx, error=f"{type(e).__name__}: {e}"))
+
+
 def real_times_oracle(res, rng, tier):
     """the library's own time machinery, unscripted: product dates from Asian(MONTHLY) (a real TimeGrid, 13 non-dyadic dates) and jump
     times from the real jump_times_from_nb_of_jumps (numpy generator seeded from the run's seed; recorded on their way in); jump counts
@@ -959,6 +1037,7 @@ def correspond(res):
     cfixed, cjump = cfixed + ccf, cjump + ccj
     copula_fixed_dates_replay(res)
     real_times_oracle(res, rng, tier)
+    precomputation_sequence_oracle(res, rng, tier)
     groups = [
         ("finer1", "Q * Q * list Q * list Q * list Q * list Q", "finer1_check", f1),
         ("finerd", "nat * Q * Q * list Q * list (list Q) * list Q * list (list Q)", "finerd_check", fd),
